@@ -4,6 +4,7 @@ from .common import *
 from vsym.core import s_ite, s_min, s_max, s_implies
 
 PROPERTY = 'C05'
+DEBUG_LOG = ['step/read-from-any-state', 'readall/read-without-size']      # obligations that are also explored with debug logging switched on
 PYTHON_O = ['step/read-from-any-state', 'unblock_1014/validation']      # obligations that are also explored with the modules compiled as under python -O
 ASSUMPTIONS = [
     'file object = RopeFile (io.BytesIO semantics)',
